@@ -2233,6 +2233,7 @@ package spec
 
 //@ func (*SwaggerProps).GobDecode
 //@   property C14
+//@   appendview
 //@   requires o != nil
 //@   assigns  region(o), ghost(gobVal, bufText, bufStream)
 //@   ensures  [C14] empty-rebuilt @@ result == nil && gobPad[gobStream(b)].Alias != nil && gobPad[gobStream(b)].SecurityIsEmpty ==> o.Security != nil && len(o.Security) == 0
@@ -2241,6 +2242,9 @@ package spec
 //@   ensures  [C14] strings-rebuilt @@ result == nil && gobPad[gobStream(b)].Alias != nil ==> o.Swagger == gobPadAlias[gobStream(b)].Swagger && o.Host == gobPadAlias[gobStream(b)].Host && o.BasePath == gobPadAlias[gobStream(b)].BasePath && o.ID == gobPadAlias[gobStream(b)].ID
 //@   loop 0 invariant 0 <= $i0 && $i0 <= len(raw.Security) && raw.Alias != nil && len(raw.Alias.Security) == $i0 && raw.Alias.Security != nil && fresh(sliceArr(raw.Alias.Security))
 //@   loop 0 invariant raw.Alias.Swagger == gobPadAlias[gobStream(b)].Swagger && raw.Alias.Host == gobPadAlias[gobStream(b)].Host && raw.Alias.BasePath == gobPadAlias[gobStream(b)].BasePath && raw.Alias.ID == gobPadAlias[gobStream(b)].ID
+//@   loop 0 invariant [C14] each-requirement-owns-its-map @@ forall i int, j int :: 0 <= i && i < j && j < len(raw.Alias.Security) ==> raw.Alias.Security[i] != raw.Alias.Security[j]
+//@   loop 0 invariant live(sliceArr(raw.Alias.Security)) && (forall i int :: 0 <= i && i < len(raw.Alias.Security) ==> raw.Alias.Security[i] != nil && live(raw.Alias.Security[i]))
+//@   ensures  [C14] requirements-own-their-maps @@ result == nil && gobPad[gobStream(b)].Alias != nil && !gobPad[gobStream(b)].SecurityIsEmpty && len(gobPadAlias[gobStream(b)].Security) > 0 ==> (forall i int, j int :: 0 <= i && i < j && j < len(o.Security) ==> o.Security[i] != o.Security[j])
 
 //@ func (OperationProps).GobEncode
 //@   property C14
@@ -2255,6 +2259,7 @@ package spec
 
 //@ func (*OperationProps).GobDecode
 //@   property C14
+//@   appendview
 //@   requires op != nil
 //@   assigns  region(op), ghost(gobVal, bufText, bufStream)
 //@   ensures  [C14] empty-rebuilt @@ result == nil && gobOpPad[gobStream(b)].Alias != nil && gobOpPad[gobStream(b)].SecurityIsEmpty ==> op.Security != nil && len(op.Security) == 0
@@ -2263,6 +2268,9 @@ package spec
 //@   ensures  [C14] strings-rebuilt @@ result == nil && gobOpPad[gobStream(b)].Alias != nil ==> op.Description == gobOpPadAlias[gobStream(b)].Description && op.Summary == gobOpPadAlias[gobStream(b)].Summary && op.ID == gobOpPadAlias[gobStream(b)].ID && op.Deprecated == gobOpPadAlias[gobStream(b)].Deprecated
 //@   loop 0 invariant 0 <= $i0 && $i0 <= len(raw.Security) && raw.Alias != nil && len(raw.Alias.Security) == $i0 && raw.Alias.Security != nil && fresh(sliceArr(raw.Alias.Security))
 //@   loop 0 invariant raw.Alias.Description == gobOpPadAlias[gobStream(b)].Description && raw.Alias.Summary == gobOpPadAlias[gobStream(b)].Summary && raw.Alias.ID == gobOpPadAlias[gobStream(b)].ID && raw.Alias.Deprecated == gobOpPadAlias[gobStream(b)].Deprecated
+//@   loop 0 invariant [C14] each-requirement-owns-its-map @@ forall i int, j int :: 0 <= i && i < j && j < len(raw.Alias.Security) ==> raw.Alias.Security[i] != raw.Alias.Security[j]
+//@   loop 0 invariant live(sliceArr(raw.Alias.Security)) && (forall i int :: 0 <= i && i < len(raw.Alias.Security) ==> raw.Alias.Security[i] != nil && live(raw.Alias.Security[i]))
+//@   ensures  [C14] requirements-own-their-maps @@ result == nil && gobOpPad[gobStream(b)].Alias != nil && !gobOpPad[gobStream(b)].SecurityIsEmpty && len(gobOpPadAlias[gobStream(b)].Security) > 0 ==> (forall i int, j int :: 0 <= i && i < j && j < len(op.Security) ==> op.Security[i] != op.Security[j])
 
 //@ func verifLemmaRefableEncodesAsRef
 //@   inline   (Ref).MarshalJSON
